@@ -217,7 +217,13 @@ func runC29(t *testing.T, tape *simrt.Tape, env dst.Env) *simrt.Outcome {
 					}
 					ack := func() {
 						cl.ackSent = true
-						c.srv.send(enc(&mt.MsgsAck{MsgIDs: []int64{m.msgID}}), sendOpt{tag: fmt.Sprintf("ack tag %d", tag), noFaults: true, ackOf: []int64{tag}})
+						ids := []int64{m.msgID}
+						if tape.Coin(simrt.Net, 1, 2) {
+							// batched with an id nobody waits for (answered long ago / unknown)
+							// (an hour older than anything in this run: never a pending id)
+							ids = []int64{m.msgID - 3600<<32 - 4*int64(tape.Choose(simrt.Net, 1000)), m.msgID}
+						}
+						c.srv.send(enc(&mt.MsgsAck{MsgIDs: ids}), sendOpt{tag: fmt.Sprintf("ack tag %d", tag), noFaults: true, ackOf: []int64{tag}})
 					}
 					result := func() {
 						c.srv.send(c.srv.result(m.msgID, respBody(cl.value)), sendOpt{content: true, tag: fmt.Sprintf("result tag %d", tag), noFaults: true, resOf: tag})
